@@ -6,7 +6,19 @@ pub struct SequenceEqual<'a, Item>
 where
   Item: Clone + Send + Sync,
 {
-  zip_op: operators::Zip<'a, Item>,
+  zip_op: operators::Zip<'a, Option<Item>>,
+}
+
+// every item as Some(x) followed by one None that marks the end of the
+// sequence: zip then pairs the end of a shorter sequence with the extra
+// item of a longer one, which compares unequal
+fn with_end_mark<'a, Item>(
+  o: &Observable<'a, Item>,
+) -> Observable<'a, Option<Item>>
+where
+  Item: Clone + Send + Sync + 'a,
+{
+  o.map(|x| Some(x)).concat(&[observables::just(None)])
 }
 
 impl<'a, Item> SequenceEqual<'a, Item>
@@ -14,7 +26,9 @@ where
   Item: Clone + Send + Sync + PartialEq,
 {
   pub fn new(observables: &[Observable<'a, Item>]) -> SequenceEqual<'a, Item> {
-    SequenceEqual { zip_op: operators::Zip::new(observables) }
+    let marked =
+      observables.iter().map(with_end_mark).collect::<Vec<_>>();
+    SequenceEqual { zip_op: operators::Zip::new(&marked) }
   }
   pub fn execute(&self, source: Observable<'a, Item>) -> Observable<'a, bool> {
     let zip_op = self.zip_op.clone();
@@ -28,8 +42,8 @@ where
       let sctl_error = sctl.clone();
       let sctl_complete = sctl.clone();
 
-      zip_op.execute(source).inner_subscribe(sctl.new_observer(
-        move |serial, x: Vec<Item>| {
+      zip_op.execute(with_end_mark(&source)).inner_subscribe(sctl.new_observer(
+        move |serial, x: Vec<Option<Item>>| {
           let check = x.get(0).unwrap();
           if !x.iter().all(|i| i == check) {
             sctl_next.upstream_abort_observe(&serial);
